@@ -134,14 +134,31 @@ def perform(cid, root, op):
         c.dump()
         return
     a = AR.open_archive(cid, root)
+    # operations the same handle COMPLETED before the one that is interrupted (e.g. a setdefault whose row must be durable by then)
+    for b in op.get('before', []):
+        _apply(a, b)
+    global PREFIX
+    PREFIX = len(EFFECTS)
+    _apply(a, op)
+
+
+PREFIX = 0
+
+
+def _apply(a, op):
+    kind = op['op']
     if kind == 'set':
         a[_key(op['key'])] = op['value']
+    elif kind == 'setdefault':
+        a.setdefault(_key(op['key']), op['value'])
     elif kind == 'update':
         a.update({_key(k): v for k, v in op['items']})
     elif kind == 'del':
         del a[_key(op['key'])]
     elif kind == 'pop':
         a.pop(_key(op['key']), None)
+    elif kind == 'popkeys':
+        a.popkeys([_key(k) for k in op['keys']], None)
     elif kind == 'clear':
         a.clear()
     else:
@@ -165,4 +182,5 @@ if __name__ == '__main__':
     install()
     KILL = kill
     perform(cid, root, op)
+    print('PREFIX %d' % PREFIX)
     print('EFFECTS ' + json.dumps(EFFECTS))
